@@ -19,7 +19,9 @@ from pyfront.interp import TranslationError
 
 COQTY = {'N': 'nat', 'B': 'bool', 'T': 'list Z', 'TS': 'list (list Z)', 'TU': 'list (list Z)', 'D': 'pyv', 'M': 'list bool',
          'I': 'list nat', 'G': 'gen', 'GS': 'list gen', 'DS': 'list pyv', 'SEGS': 'list (list (list Z))',
-         'FS': 'list (list Z -> list Z)', 'F1': 'list Z -> list Z'}
+         'FS': 'list (list Z -> list Z)', 'F1': 'list Z -> list Z', 'ON': 'option nat'}
+# ON = an Optional[int] parameter (`size=None`): only `x is None` / `x is not None` may look at it, and it may be used as an
+# integer only in a branch where such a test has established that it is not None (anything else is a TranslationError)
 # TS = a Python list of tensors, TU = a tuple of tensors, DS = a list of get_examples() values,
 # SEGS = the tuples produced by zip(*values), FS = a list of user callables on one tensor
 
@@ -70,7 +72,7 @@ class Fn:
 
     def __init__(self, relpath, cls, fdef, name, params, fields, reads, writes, draw=None, oracles=None,
                  gen_size=None, returns_value=True, extra_params=(), helpers=None, children=False, callables=None,
-                 module_helpers=None, self_obj=False, ret_type='D'):
+                 module_helpers=None, self_obj=False, ret_type='D', defaults=None, elem_is_tensor=None):
         self.relpath, self.cls, self.fdef, self.name = relpath, cls, fdef, name
         self.params, self.fields, self.reads, self.writes = params, fields, reads, writes
         self.draw, self.oracles, self.gen_size = draw, oracles or {}, gen_size
@@ -79,6 +81,8 @@ class Fn:
         self.callables = callables or {}  # {'self.trans': (is_callable flag, callable name, list-of-callables name)}
         self.self_obj = self_obj          # the method's `self` is itself a generator object (operator overloads of BaseGenerator)
         self.ret_type = ret_type
+        self.defaults = defaults          # {python parameter: (expected default source text, coq term)}: emitted as <name>_default_<p>
+        self.elem_is_tensor = elem_is_tensor   # name of the abstract predicate `isinstance(x, torch.Tensor)` on a user-supplied column
         self.module_helpers = module_helpers or {}   # {name: FunctionDef} module-level functions that may be inlined
         self.helpers = helpers or {}     # {name: FunctionDef} methods of the same class that may be inlined
         self.inline_depth = 0
@@ -141,6 +145,12 @@ class Fn:
         k = self.key_of(node)
         if k is not None:
             if k in env:
+                if env[k][1] == 'ON':
+                    if ref.get(k) == 'some':
+                        return f'(match {env[k][0]} with Some n => n | None => 0 end)', 'N'    # the None arm is unreachable here
+                    self.err(node, 'an Optional[int] value is used without an `is None` test guarding it')
+                if env[k][1] == 'O':
+                    self.err(node, 'an opaque user object may only be stored, never inspected')
                 return env[k]
             if not (self.self_obj and isinstance(node, ast.Attribute)):
                 self.err(node, 'unknown name')
@@ -162,6 +172,13 @@ class Fn:
             self.err(node, 'attribute access not accepted')
         if isinstance(node, ast.Call):
             return self.call(node, env, binds, ref)
+        if isinstance(node, ast.Compare) and len(node.ops) == 1 and isinstance(node.ops[0], (ast.Is, ast.IsNot)):
+            kk = self.key_of(node.left)
+            c0 = node.comparators[0]
+            if kk is None or kk not in env or env[kk][1] != 'ON' or not (isinstance(c0, ast.Constant) and c0.value is None):
+                self.err(node, '`is` / `is not` only between an Optional[int] parameter and None')
+            t = f'(match {env[kk][0]} with None => true | Some _ => false end)'
+            return (t if isinstance(node.ops[0], ast.Is) else f'negb {t}'), 'B'
         if isinstance(node, ast.Compare) and len(node.ops) == 1:
             a, ta = self.expr(node.left, env, binds, ref)
             b, tb = self.expr(node.comparators[0], env, binds, ref)
@@ -276,6 +293,14 @@ class Fn:
             r1, r2 = self.refine(test.operand, ref)
             return r2, r1
         r1, r2 = dict(ref), dict(ref)
+        if isinstance(test, ast.Compare) and len(test.ops) == 1 and isinstance(test.ops[0], (ast.Is, ast.IsNot)) \
+                and isinstance(test.comparators[0], ast.Constant) and test.comparators[0].value is None and self.key_of(test.left):
+            k = self.key_of(test.left)
+            if isinstance(test.ops[0], ast.Is):
+                r1[k], r2[k] = 'none', 'some'
+            else:
+                r1[k], r2[k] = 'some', 'none'
+            return r1, r2
         if (isinstance(test, ast.Call) and isinstance(test.func, ast.Name) and test.func.id == 'isinstance' and len(test.args) == 2):
             k = self.key_of(test.args[0])
             what = ast.unparse(test.args[1])
@@ -296,6 +321,22 @@ class Fn:
             return f'meshgrid_ij {par(self.as_seq(node.args[0], v, tv))}', 'TU'
         if node.keywords:
             self.err(node, 'keyword arguments not accepted')
+        # value-preserving conversions of one column: torch.tensor(x) (same numbers), torch.flatten(x), x.requires_grad_(True)
+        if text == 'torch.tensor' and len(node.args) == 1:
+            v, tv = self.expr(node.args[0], env, binds, ref)
+            if tv != 'T':
+                self.err(node, 'torch.tensor(...) only of one column')
+            return f'tensor_of {par(v)}', 'T'
+        if text == 'torch.flatten' and len(node.args) == 1:
+            v, tv = self.expr(node.args[0], env, binds, ref)
+            if tv != 'T':
+                self.err(node, 'torch.flatten(...) only of one column')
+            return f'flatten_nd {par(v)}', 'T'
+        if isinstance(node.func, ast.Attribute) and node.func.attr == 'requires_grad_' and [ast.unparse(a) for a in node.args] == ['True']:
+            v, tv = self.expr(node.func.value, env, binds, ref)
+            if tv != 'T':
+                self.err(node, 'requires_grad_ only on one column')
+            return f'requires_grad {par(v)}', 'T'
         # methods of a tensor: r.flatten(), u.reshape(-1, 1)
         if isinstance(node.func, ast.Attribute) and node.func.attr in ('flatten', 'reshape') and self.key_of(node.func.value) is not None \
                 and self.key_of(node.func.value) in env and env[self.key_of(node.func.value)][1] == 'T':
@@ -409,6 +450,11 @@ class Fn:
                 return f'obj_is_mesh {par(v)}', 'B'
             if tv == 'G' and what == 'BaseGenerator' and v != '#underlying':
                 return f'obj_is_generator {par(v)}', 'B'
+            if tv == 'T' and what == 'torch.Tensor' and self.elem_is_tensor:
+                # a user-supplied column: a torch.Tensor or a plain sequence; which one is an abstract predicate
+                if (self.elem_is_tensor, 'list Z -> bool') not in self.used_oracles:
+                    self.used_oracles.append((self.elem_is_tensor, 'list Z -> bool'))
+                return f'{self.elem_is_tensor} {par(v)}', 'B'
             self.err(node, 'isinstance test not accepted')
         if text in ('self.generator.get_examples', 'generator.get_examples') and not node.args:
             g = env.get('self.generator' if text.startswith('self.') else 'generator')
@@ -602,6 +648,12 @@ class Fn:
         # aliasing the underlying generator
         if isinstance(value_node, ast.Name) and env.get(value_node.id) == ('#underlying', 'G'):
             env[k] = ('#underlying', 'G')
+            return []
+        # storing an opaque user object (filter_fn): not part of the modelled state, but it must go to the field of the same kind
+        if isinstance(value_node, ast.Name) and env.get(value_node.id) == ('#opaque', 'O'):
+            if not k.startswith('self.') or self.fields.get(k[5:]) != 'O' or k[5:] != value_node.id:
+                self.err(node, 'an opaque user object may only be stored in the field of its own name')
+            env[k] = ('#opaque', 'O')
             return []
         e, te = self.expr(value_node, env, binds, ref)
         want = self.fields[k[5:]] if k.startswith('self.') else None
@@ -1112,8 +1164,24 @@ class Fn:
     def translate(self):
         f = self.fdef
         a = f.args
-        if a.kwonlyargs or a.kwarg or a.defaults or a.kw_defaults or a.posonlyargs:
+        if a.kwonlyargs or a.kwarg or a.kw_defaults or a.posonlyargs or (a.defaults and self.defaults is None):
             self.err(f, 'default / keyword-only / positional-only parameters are not accepted')
+        self.default_defs = []
+        if self.defaults is not None:
+            have = {x.arg: ast.unparse(d) for x, d in zip(a.args[len(a.args) - len(a.defaults):], a.defaults)}
+            if set(have) != set(self.defaults):
+                self.err(f, f'parameters with defaults changed: {sorted(have)}')
+            for pn, (src, coq) in self.defaults.items():
+                if have[pn] != src:
+                    # the default IS translated: a different literal gives a different generated constant
+                    known = {'None': 'None', 'True': 'true', 'False': 'false'}
+                    if have[pn] not in known and not have[pn].isdigit():
+                        self.err(f, f'default of {pn} is not a literal this translator accepts: {have[pn]}')
+                    coq = known.get(have[pn], f'(Some {have[pn]})' if src == 'None' else have[pn])
+                pty = [COQTY[t] for py, _, t in self.params if py == pn]
+                if len(pty) != 1:
+                    self.err(f, f'default declared for a parameter that is not modelled: {pn}')
+                self.default_defs.append(f'Definition {self.name}_default_{pn} : {pty[0]} := {coq}.')
         names = [x.arg for x in a.args][1:] + (['*' + a.vararg.arg] if a.vararg else [])
         if [x.arg for x in a.args][:1] != ['self'] or names != [p[0] for p in self.params]:
             self.err(f, f'signature changed: parameters {names}')
@@ -1133,6 +1201,9 @@ class Fn:
             key = py.lstrip('*')
             if ty == 'UNDERLYING':
                 env[key] = ('#underlying', 'G')
+                continue
+            if ty == 'O':
+                env[key] = ('#opaque', 'O')
                 continue
             env[key] = (coq, ty)
             self.scope.append((coq, COQTY[ty]))
@@ -1154,5 +1225,6 @@ class Fn:
             self.err(f, 'user callables / RNG calls inside a method with a loop are not accepted')
         lead = list(self.used_oracles) + ([('fuel', 'nat')] if self.needs_fuel else [])
         sig = ' '.join(f'({n} : {t})' for n, t in lead + params)
-        text = '\n\n'.join(self.aux + [f'(* {self.cls}.{f.name}, {self.relpath}:{f.lineno} *)\nDefinition {self.name} {sig} :=\n{body}.'])
+        text = '\n\n'.join(self.aux + [f'(* {self.cls}.{f.name}, {self.relpath}:{f.lineno} *)\nDefinition {self.name} {sig} :=\n{body}.']
+                           + getattr(self, 'default_defs', []))
         return text
